@@ -1745,13 +1745,16 @@ class Rebalance(Algo):
                 target.close(cname, update=False)
 
         # If cash is set (it should be a value between 0-1 representing the
-        # proportion of cash to keep), calculate the new 'base'
+        # proportion of cash to keep), scale the target weights. Scaling the
+        # base instead would also scale the children's current weights and
+        # miss the targets whenever the portfolio is not flat.
+        scale = 1.0
         if "cash" in target.temp and not target.fixed_income:
-            base = base * (1 - target.temp["cash"])
+            scale = 1 - target.temp["cash"]
 
         # Turn off updating while we rebalance each child
         for item in targets.items():
-            target.rebalance(item[1], child=item[0], base=base, update=False)
+            target.rebalance(item[1] * scale, child=item[0], base=base, update=False)
 
         # Now update
         target.root.update(target.now)
